@@ -34,8 +34,11 @@ Init ==
   /\ L = 0 /\ addr = 0 /\ mode = "seed" /\ cidx = 0
 
 \* vectors whose length is at the maximum of a one-byte length type: slices of 257 / 300 bytes, 254 .. 256 items
-BigIds == {"V_u8_u8", "V_unit_u8"}
-BigConts == [n \in 1..3 |-> Rep(253 + n, IF T.elem[1].k = "unit" THEN <<>> ELSE <<7>>)]
+\* ... and FlexVec<FlatVec<u8,u8>,u8> whose *non-last* item has a record of 253 / 254 / 255 bytes: 255 = L::MAX is the
+\* "last item" marker and cannot seal an item (flex::FromIterator must refuse it, as push does)
+BigIds == {"V_u8_u8", "V_unit_u8", "X_vu8_u8"}
+BigConts == IF T.k = "flex" THEN [n \in 1..3 |-> << Rep(250 + n, <<7>>), << <<1>> >> >>]
+            ELSE [n \in 1..3 |-> Rep(253 + n, IF T.elem[1].k = "unit" THEN <<>> ELSE <<7>>)]
 Seed ==
   /\ mode = "seed"
   /\ \/ /\ \/ mode' = "new" /\ cidx' \in 1..Len(Contents(T))
